@@ -31,7 +31,7 @@ COMPONENTS = {"real": ["whole default stack (YowLayer.toLower locks, YowParallel
 ASSUMPTIONS = ["six 1.17 shim", "consonance randint(float) coerced", "an injected exception is raised at the entry of the chosen "
                "layer's send/receive (instance attribute wrapper), i.e. while the layers above (send) or below (receive) are "
                "inside their own toLower/receive calls"]
-BUDGET = {"quick": (624, 170), "thorough": (20000, 2400)}
+BUDGET = {"quick": (624, 170), "thorough": (100000, 2700)}
 FAULTS = ["layer_exception_down", "layer_exception_up", "natural_down", "natural_up"]
 PROBES = ["reported_to_caller", "reported_by_dispatcher_close", "reported_to_receive_caller", "followup_same_task", "followup_other_task", "reconnected_after_fault",
           "locks_free_after_fault"]
